@@ -1016,8 +1016,12 @@ def replay_queries(a):
     exe = a.cli()
     if not exe:
         return {"reproduced": False, "note": "native build failed"}
-    data = ('{"L": [ {"x": 1, "y": [1, 2]}, {"x": 2, "y": [3]} ],\n "E": [],\n "M": {"a": {"v": 1}, "b": {"v": 2}},\n "N": [[1, 2], [3]],\n "s": 5, "EM": {}}\n')
-    cases = [("L[*].x >= 1", "PASS"), ("L[*].x == 1", "FAIL"), ("some L[*].x == 2", "PASS"), ("L[0].x == 1", "PASS"), ("L[1].x == 2", "PASS"),
+    data = ('{"L": [ {"x": 1, "y": [1, 2]}, {"x": 2, "y": [3]} ],\n "E": [],\n "M": {"a": {"v": 1}, "b": {"v": 2}},\n "N": [[1, 2], [3]],\n "s": 5, "EM": {},\n'
+            ' "W": [[1, 2]], "WE": [[]], "W1": [[7]]}\n')
+    cases = [  # a list whose ONLY element is a list: `[*]` yields that element (a list), it is not looked through
+             ("W[*] is_list", "PASS"), ("W[*][0] == 1", "PASS"), ("W[*][*] >= 1", "PASS"), ("WE[*] is_list", "PASS"), ("WE[*] empty", "PASS"),
+             ("WE[*][*] !exists", "PASS"), ("W1[*] is_list", "PASS"), ("W1[0][0] == 7", "PASS"), ("WE[0] is_list", "PASS"),
+             ("L[*].x >= 1", "PASS"), ("L[*].x == 1", "FAIL"), ("some L[*].x == 2", "PASS"), ("L[0].x == 1", "PASS"), ("L[1].x == 2", "PASS"),
              ("L[-1].x == 2", "PASS") if False else ("L[1].y[0] == 3", "PASS"), ("L[2].x == 1", "FAIL"), ("L[2] !exists", "PASS"),
              ("L[*].y[*] >= 1", "PASS"), ("L[*].y[1] == 2", "FAIL"), ("some L[*].y[1] == 2", "PASS"),
              ("E[*] !exists", "PASS"), ("E[*].x == 1", "FAIL"), ("M.*.v >= 1", "PASS"), ("M.*.v == 1", "FAIL"), ("M.a.v == 1", "PASS"),
@@ -1037,4 +1041,4 @@ def replay_queries(a):
 
 SITES = {"C09": [q_dispatch], "C04": [q_dispatch], "C01": [q_accumulate, q_accumulate_map, q_retrieve_index, q_map_resolved, q_filter_delegate, q_dispatch, q_variable_head, q_unresolved_value],
          "C08": [q_dispatch],
-         "C15": [q_variable_head], "C10": [q_unresolved_value, q_dispatch]}
+         "C15": [q_variable_head], "C10": [q_unresolved_value, q_dispatch, q_accumulate, q_accumulate_map, q_retrieve_index]}
